@@ -12,6 +12,7 @@
   block arrays (products of modules).
 -/
 import Scico.Proofs.StepsEq
+import Scico.Model.StepsSource
 import Mathlib.LinearAlgebra.Complex.Module
 import Mathlib.Algebra.Order.Ring.Rat
 import Mathlib.Algebra.Module.Pi
@@ -293,6 +294,17 @@ theorem C11_ladmm_primal_pinned_differs :
             C := id, Cadj := id, mu := 1, nu := 1, normX := abs, normZ := abs },
           { x := 0, z := 0, zOld := 0, u := 0 }, 1, ?_⟩
   simp [ladmmNormPrimalPinned, ladmmNormPrimalImpl, ladmmNormPrimalSpec]
+
+/-- what the model copies from the optimiser sources, pinned as tables in `Model/StepsSource.lean`; the generated module
+    `Scico.Generated.StepsTables` (rewritten from the working tree by `harness/steps_translate.py` on every run) states that the
+    tables read from the source equal the pinned ones.  Consequences used by the model: the order of the state updates of every
+    `step()` (`…ImplStep` performs one structure update per assignment, in this order); the defaults the model hard-wires
+    (`alpha = 1.0`, `B = None`, `c = None`, missing starts, `fast_dual_residual = True`); the state attributes the constructors
+    store (`…Init`); and which sub-problem solver classes reduce over `C_list` at attachment (`solverReduces` of
+    `admmInitFull`: an empty list is a `TypeError` exactly for those) -/
+theorem C11_source_transcription :
+    Steps.Source.StepTargets ∧ Steps.Source.ModelDefaults ∧ Steps.Source.InitStateAttrs ∧ Steps.Source.SolverReducesFlags :=
+  ⟨Steps.Source.step_targets, Steps.Source.model_defaults, Steps.Source.init_state_attrs, Steps.Source.solver_reduces_flags⟩
 
 /-! ### non-vacuity -/
 
